@@ -7,9 +7,9 @@ class ModelError(Exception): pass      # definite API misuse by the emitted prog
 class NotModelled(Exception): pass     # outside the model
 
 class Ctx:
-    def __init__(self): self.pc = []
+    def __init__(self): self.pc = []; self.shaped = []
     def cur(self): return gand(*self.pc)
-    def reset(self): self.pc = []
+    def reset(self): self.pc = []; self.shaped = []
 CTX = Ctx()
 
 def ckey(c):
@@ -298,6 +298,9 @@ def build(pts, n, out):
 class STensor:
     def __init__(self, rank_ids=None, name=None, shape=None, root=None, out=True):
         self.rank_ids = list(rank_ids); self.name = name; self.shape = shape
+        if shape is not None:
+            if len(shape) != len(self.rank_ids): raise ModelError("Tensor %s: shape %s for rank ids %s" % (name, shape, rank_ids))
+            CTX.shaped.append(self)
         n = len(self.rank_ids)
         self.out = out
         if root is None:
